@@ -1098,6 +1098,23 @@ func runC06(tier string, seed uint64, out *Out) {
 	for _, c := range smallCases(tier) {
 		enumerate(out, c, runCfg{hb: 1, maxFrags: 2, idBase: 7}, limit)
 	}
+	// (1b) a reversed scan crossing a region boundary below which a row ends in a long run of 0xff:
+	// the client continues in the previous region from "the boundary's last byte lowered by one,
+	// padded with 0xff" — a row above that padding lies in the previous region all the same
+	{
+		ff := func(n int) []byte { return bytes.Repeat([]byte{0xff}, n) }
+		for _, tail := range []int{7, 8, 9, 12} {
+			c := &scanCase{start: []byte("zzz"), rev: true, nrows: 2, splits: [][]byte{[]byte("foo")},
+				table: []srow{{[]byte("bar"), 1}, {[]byte("fon"), 1}, {append([]byte("fon"), ff(tail)...), 2}, {[]byte("foo1"), 1}}}
+			emit(out, c, &chooser{rng: NewRNG(seed, fmt.Sprintf("c06ff-%d", tail))}, endPlan{kind: "full"}, runCfg{hb: 0, maxFrags: 1, idBase: 3})
+		}
+	}
+	// (1c) a reversed scan without a start row ("from the end of the table") over several regions
+	{
+		c := &scanCase{rev: true, nrows: 2, splits: [][]byte{[]byte("foo")},
+			table: []srow{{[]byte("bar"), 1}, {[]byte("fon"), 1}, {[]byte("foo1"), 1}, {[]byte("zed"), 2}}}
+		emit(out, c, &chooser{rng: NewRNG(seed, "c06revempty")}, endPlan{kind: "full"}, runCfg{hb: 0, maxFrags: 1, idBase: 3})
+	}
 	// (2) seeded random: bigger tables, up to 5 regions, random chunking
 	rng := NewRNG(seed, "c06")
 	n := 40000
